@@ -70,7 +70,7 @@ def validate(ctx, pairs, embs, label, mine, hashseeds=(0,), nproc=12):
             ctx.failure({"clause": "C06-no-matching-result", "detail": r["rows_raised"]},
                         {"kind": "bottleneck", "S": S, "T": T, "emb": e.name, "hashseed": seeds[i]})
             continue
-        cases.append(build_case(S, T, e, r))
+        cases.append(dict(build_case(S, T, e, r), mine=mine))
         idx.append(i)
     verdicts, st = tlc.run_batch("TraceBottleneck", cases, nproc=nproc)
     ctx.extra.setdefault("trace_validation_runs", []).append(dict(label=label, cases=len(cases), tlc_states=st["states"], wall_s=round(st["wall"], 1)))
